@@ -366,13 +366,27 @@ where
                     ConnectionState::CloseReceived
                 ) {
                     self.outgoing_session_frames.close();
+                    let mut answer = Ok(());
                     while let Some(frame) = self.outgoing_session_frames.recv().await {
-                        self.on_outgoing_session_frames(frame).await?;
+                        if let Err(error) = self.on_outgoing_session_frames(frame).await {
+                            answer = Err(error);
+                            break;
+                        }
                     }
 
-                    self.connection
-                        .send_close(&mut self.transport, None)
-                        .await?;
+                    if answer.is_ok() {
+                        answer = self
+                            .connection
+                            .send_close(&mut self.transport, None)
+                            .await
+                            .map_err(Into::into);
+                    }
+
+                    // The reason why the peer closed the connection is reported even if the
+                    // answering Close cannot be written (eg. the peer has dropped the socket)
+                    if result.is_ok() {
+                        answer?;
+                    }
                 }
                 result?;
             }
@@ -531,7 +545,15 @@ where
                 Ok(Running::Stop)
             }
             ConnectionInnerError::RemoteClosed | ConnectionInnerError::RemoteClosedWithError(_) => {
-                self.close_connection(None).await
+                // A failure to answer the peer's Close must not replace the peer's reason
+                #[allow(unused_variables)]
+                if let Err(error) = self.close_connection(None).await {
+                    #[cfg(feature = "tracing")]
+                    tracing::error!(?error);
+                    #[cfg(feature = "log")]
+                    log::error!("{:?}", error);
+                }
+                Ok(Running::Stop)
             }
         }
     }
